@@ -161,6 +161,7 @@ func runWriter(specPath string) int {
 				body = content(3) // same length, other bytes: the signed checksum does not match
 			}
 			ctx, cancel := context.WithCancel(context.Background())
+			defer cancel()
 			plan := P["srv"]
 			if plan == "" {
 				plan = "ok"
